@@ -1173,7 +1173,7 @@ pub fn generate(prop: &str, rng: &mut Rng, thorough: bool) -> ImgScenario {
             16..=17 => short_keys(rng, thorough),
             12..=15 => crashes(rng, thorough),
             0 => plain(scen::c01(rng, thorough)),
-            1 => plain(if rng.chance(1, 2) { scen::c01_prefix_tail(rng, false) } else { scen::c01_clusters(rng, false) }),
+            1 => plain(match rng.below(3) { 0 => scen::c01_prefix_tail(rng, false), 1 => scen::c01_clusters(rng, false), _ => scen::c01_first_leaf(rng, false) }),
             2..=3 => plain(scen::c02(rng, thorough)),
             4 => plain(scen::c09(rng, thorough)),
             5..=6 => plain(scen::c10(rng, thorough)),
